@@ -1,6 +1,7 @@
 import GrogModel.Drv.Proto
 import GrogModel.Hash
 import GrogModel.Sha256
+import GrogModel.Proto
 open Lean
 
 namespace Grog.Drv.Hash
@@ -56,7 +57,30 @@ def keyH : Handler := fun j => do
   let k := if variant == "old" then keyOld Sha256.sha256Hex s else key Sha256.sha256Hex s
   pure (Json.mkObj [("key", jBytes k)])
 
+def outputOf (o : Json) : Except String Proto.Output := do
+  let kind ← getStr o "kind"
+  let path ← getBytes o "path"
+  let dg ← (match o.getObjVal? "hash" with
+    | .ok v => if v.isNull then pure none else do
+        let h ← asBytes v
+        let sz := (o.getObjValAs? Nat "size").toOption.getD 0
+        pure (some (Proto.Digest.mk h sz))
+    | .error _ => pure none)
+  if kind == "file" then
+    let ex := (o.getObjValAs? Bool "exec").toOption.getD false
+    pure (Proto.Output.file path dg ex)
+  else if kind == "dir" then pure (Proto.Output.dir path dg)
+  else throw "unknown output kind"
+
+def outH : Handler := fun j => do
+  let algo ← getStr j "algo"
+  if algo != "sha256" then throw "model computes hashes only under sha256"
+  let arr ← getArr j "outputs"
+  let outs ← arr.toList.mapM outputOf
+  let ser := outs.map Proto.serOutput
+  pure (Json.mkObj [("hash", jBytes (outHash Sha256.sha256Hex ser)), ("ser", jBytesList ser)])
+
 def handlers : List (String × Handler) :=
-  [("hash.sha256", sha), ("hash.key", keyH)]
+  [("hash.sha256", sha), ("hash.key", keyH), ("hash.out", outH)]
 
 end Grog.Drv.Hash
